@@ -148,36 +148,41 @@ func runC18(r *simkit.Run) {
 	var sinkGot []byte
 	sinkCalls := 0
 	var sinkErr error
-	sharers := make([]*sharer, cfg.Sharers)
-	for i := range sharers {
-		sig := signals[i%3]
-		sh := &sharer{sig: sig}
-		p := pd{sig: sig}
-		switch sig {
-		case sigLogs:
-			next, _ := consumer.NewLogs(func(_ context.Context, ld plog.Logs) error { sinkCalls++; sinkGot = p.bytes(ld); return sinkErr })
-			c, err := f.CreateLogs(context.Background(), set, pcfg, next)
-			if err != nil {
-				panic(err)
+	var sharers []*sharer
+	newGeneration := func(pcfg *memorylimiter.Config) {
+		sharers = make([]*sharer, cfg.Sharers)
+		for i := range sharers {
+			sig := signals[i%3]
+			sh := &sharer{sig: sig}
+			p := pd{sig: sig}
+			switch sig {
+			case sigLogs:
+				next, _ := consumer.NewLogs(func(_ context.Context, ld plog.Logs) error { sinkCalls++; sinkGot = p.bytes(ld); return sinkErr })
+				c, err := f.CreateLogs(context.Background(), set, pcfg, next)
+				if err != nil {
+					panic(err)
+				}
+				sh.comp, sh.consume = c, func(ctx context.Context, x any) error { return c.ConsumeLogs(ctx, x.(plog.Logs)) }
+			case sigTraces:
+				next, _ := consumer.NewTraces(func(_ context.Context, td ptrace.Traces) error { sinkCalls++; sinkGot = p.bytes(td); return sinkErr })
+				c, err := f.CreateTraces(context.Background(), set, pcfg, next)
+				if err != nil {
+					panic(err)
+				}
+				sh.comp, sh.consume = c, func(ctx context.Context, x any) error { return c.ConsumeTraces(ctx, x.(ptrace.Traces)) }
+			default:
+				next, _ := consumer.NewMetrics(func(_ context.Context, md pmetric.Metrics) error { sinkCalls++; sinkGot = p.bytes(md); return sinkErr })
+				c, err := f.CreateMetrics(context.Background(), set, pcfg, next)
+				if err != nil {
+					panic(err)
+				}
+				sh.comp, sh.consume = c, func(ctx context.Context, x any) error { return c.ConsumeMetrics(ctx, x.(pmetric.Metrics)) }
 			}
-			sh.comp, sh.consume = c, func(ctx context.Context, x any) error { return c.ConsumeLogs(ctx, x.(plog.Logs)) }
-		case sigTraces:
-			next, _ := consumer.NewTraces(func(_ context.Context, td ptrace.Traces) error { sinkCalls++; sinkGot = p.bytes(td); return sinkErr })
-			c, err := f.CreateTraces(context.Background(), set, pcfg, next)
-			if err != nil {
-				panic(err)
-			}
-			sh.comp, sh.consume = c, func(ctx context.Context, x any) error { return c.ConsumeTraces(ctx, x.(ptrace.Traces)) }
-		default:
-			next, _ := consumer.NewMetrics(func(_ context.Context, md pmetric.Metrics) error { sinkCalls++; sinkGot = p.bytes(md); return sinkErr })
-			c, err := f.CreateMetrics(context.Background(), set, pcfg, next)
-			if err != nil {
-				panic(err)
-			}
-			sh.comp, sh.consume = c, func(ctx context.Context, x any) error { return c.ConsumeMetrics(ctx, x.(pmetric.Metrics)) }
+			sharers[i] = sh
 		}
-		sharers[i] = sh
 	}
+	newGeneration(pcfg)
+	generation := 1
 	var ext interface {
 		component.Component
 		MustRefuse() bool
@@ -391,6 +396,15 @@ func runC18(r *simkit.Run) {
 			if t := script.takenNow(); len(t) > 0 {
 				r.Failf("lifecycle", "checker-runs-after-last-shutdown", "%d memory readings were taken after the last user of the limiter had shut down", len(t))
 			}
+			if generation == 1 && tp.Chance(1, 2) {
+				// a second generation, as after a configuration reload that reuses the factory: NEW processors built from
+				// a NEW configuration object with the same values. They get a limiter of their own that starts accepting.
+				generation = 2
+				r.Count("probe.second_generation_from_the_same_factory")
+				newGeneration(mk())
+				refusing, gcKnown = false, false
+				continue
+			}
 			break
 		}
 	}
@@ -413,5 +427,5 @@ var HarnessC18 = simkit.Harness{
 	Prop: "C18", Name: "svc/c18", Run: runC18, StepTimeout: 20e9,
 	Real: []string{"internal/memorylimiter.MemoryLimiter (ticker goroutine, CheckMemLimits, reference-counted Start/Shutdown, real runtime.GC)", "memorylimiterprocessor factory (one limiter shared by processors of several signals) on top of processorhelper", "memorylimiterextension"},
 	Stub: []string{"memory readings (ReadMemStatsFn / GetMemoryFn package variables) scripted per check: first reading and reading after a forced GC", "downstream sinks (ok / error)"},
-	Rule: "one run = one tape-drawn configuration accepted by Validate() (check interval, soft/hard minimum GC intervals, fixed or percentage limits, spike limit), 1-3 processors sharing one limiter (or the extension), and a schedule of start / shutdown of individual sharers, virtual-clock advances by the check interval or a third of it with a tape-chosen reading class (below soft, soft-1, soft, soft+1, between, hard-1, hard, hard+1, far above) and after-GC reading, and consume calls with accepting or failing downstream; a forced GC is observed as the second reading consumed by one check; distinct = distinct event-log hash; non-trivial = at least one check ran",
+	Rule: "one run = one tape-drawn configuration accepted by Validate() (check interval, soft/hard minimum GC intervals, fixed or percentage limits, spike limit), 1-3 processors sharing one limiter (or the extension; after the last one has shut down optionally a second generation of processors built by the same factory from a new, equal configuration object), and a schedule of start / shutdown of individual sharers, virtual-clock advances by the check interval or a third of it with a tape-chosen reading class (below soft, soft-1, soft, soft+1, between, hard-1, hard, hard+1, far above) and after-GC reading, and consume calls with accepting or failing downstream; a forced GC is observed as the second reading consumed by one check; distinct = distinct event-log hash; non-trivial = at least one check ran",
 }
